@@ -215,6 +215,10 @@ func (e *Explorer) check(extra ...*Term) SatResult {
 	e.flush()
 	r, _ := e.S.Check(extra, nil)
 	if r == Unknown {
+		// a timeout on a loaded machine: ask once more before giving up
+		r, _ = e.S.Check(extra, nil)
+	}
+	if r == Unknown {
 		e.Unknowns++
 	}
 	return r
@@ -429,6 +433,9 @@ func (e *Explorer) model(extra ...*Term) (Model, SatResult) {
 		want["n!dummy"] = 8
 	}
 	r, m := e.S.Check(extra, want)
+	if r == Unknown {
+		r, m = e.S.Check(extra, want)
+	}
 	if r != Sat {
 		if r == Unknown {
 			e.Unknowns++
